@@ -179,6 +179,7 @@ na_reasons = {
 
 props["C19"] = {
     "level": "model_checking", "validate": 6,
+    "unreached_ok": ["restored-database-flushed-before-it-is-published", "restored-database-durable-on-success"],
     "runs": [
         run("root", "VxC19Apply", {"IDX": 2}, {"IDX": 3}),
         run("root", "VxC19Select", {"SNAPS": 3}, {"SNAPS": 3}),
@@ -202,6 +203,7 @@ props["C16"] = {
         run("root", "VxC16Poll", {"N": 3, "M": 4}, {"N": 4, "M": 5}),
         run("root", "VxC16Apply", {}, {}),
         run("root", "VxC16Follow", {}, {}),
+        run("root", "VxC16ApplyFar", {}, {}, note="a follower database across the 4 GiB offset (sparse file, 512-byte pages): a page on either side lands at (pgno-1)*pageSize"),
     ],
     "assumptions": [
         "level-0 files are single-TXID; a backend lists a level sorted by (min,max) and honours the seek TXID like the file backend (MinTXID >= seek)",
@@ -257,6 +259,7 @@ props["C17"] = {
         run("root", "VxC17Incremental", {}, {}),
         run("root", "VxC17PageMap", {}, {}, note="WAL frames for the pages next to the lock page reach the page map"),
         run("root", "VxC17Snapshot", {"PSI": 7}, {"PSI": 7}, note="65536-byte pages: 16385 loop iterations"),
+        run("root", "VxC17SyncAcross", {"PSI": 7, "_maxsteps": 40000000}, {"PSI": 7, "_maxsteps": 40000000}, note="the real DB.sync snapshotting a database that grows across the lock page within one sync (file ends before the lock page, the pages beyond are in the WAL)"),
         run("root", "VxC17Snapshot", {"PSI": 6, "_maxsteps": 40000000}, {"PSI": 6, "_maxsteps": 40000000}, note="32768-byte pages"),
         run("root", "VxC17Snapshot", None, {"PSI": 5, "_maxsteps": 80000000}, tier="thorough", note="16384-byte pages"),
         run("root", "VxC17Snapshot", None, {"PSI": 4, "_maxsteps": 160000000}, tier="thorough", note="8192-byte pages"),
@@ -273,12 +276,14 @@ props["C17"] = {
 
 props["C10"] = {
     "level": "model_checking", "validate": 6,
+    "unreached_ok": ["restored-database-flushed-before-it-is-published", "restored-database-durable-on-success"],
     "runs": [
         run("internal", "VxC10Reader", {"S": 3, "READS": 4, "OPENS": 4}, {"S": 4, "READS": 5, "OPENS": 5}),
         run("internal", "VxC10Limited", {}, {}),
         run("root", "VxC10Restore", {}, {}),
         run("root", "VxC10Integrity", {}, {}),
         run("root", "VxC10Hole", {}, {}, note="a replica without level-0 files whose middle compacted file is gone"),
+        run("root", "VxC19Restore", {"IDX": 2, "BRK": 1}, {"IDX": 2, "BRK": 1}, note="legacy-format restore with any one WAL segment missing or one segment download breaking off mid-stream: an error with no output, or exactly the original bytes (shared with C19)"),
     ],
     "assumptions": [
         "a storage stream is honest about bytes (it returns the file's bytes at its position) but may return any count up to the buffer, end early or fail at every Read; every reopen may succeed, report not-exist or fail",
@@ -300,6 +305,8 @@ props["C13"] = {
         run("root", "VxC13Busy", {}, {}),
         run("root", "VxC02Snapshot", {}, {}, note="a failed snapshot attempt leaves the checkpoint lock free (shared with C02)"),
         run("root", "VxC13IdleFile", {"ONEPS": 1}, {}, note="idle sync with a stale tail in the WAL file: the size the decision is made on is the synced size"),
+        run("root", "VxC13Drain", {"ONEPS": 1}, {"ONEPS": 1}, note="the real DB.Sync chunk loop draining a backlog of several byte-budget chunks while the application keeps committing: when it returns the thresholds were evaluated on the size the drain ended at"),
+        run("root", "VxC13Contention", {}, {}, note="a due PASSIVE checkpoint meeting an application write transaction shorter than BusyTimeout, with database/sql's connection pool modelled (connections are configured by the DSN only): the barrier waits, the checkpoint is carried out"),
         run("root", "VxC13Rounds", {"ONEPS": 1}, {}, note="the real syncLocked over a burst round (checkpoint possibly refused) and an idle round: a skipped checkpoint is retried"),
     ],
     "assumptions": [
